@@ -123,6 +123,11 @@ func (g *Gen) weight(kind string) int {
 		if kind == "vote" && voted < need && active > voted {
 			w *= 6
 		}
+	case "renewvoting":
+		// a vote in the last block in which it can be renewed
+		if w > 0 && k.Height+1 >= k.Params.DPoSV2StartHeight && len(g.expiringVoters(k.Height+1)) > 0 {
+			w *= 8
+		}
 	case "registercr", "votecr", "votingcr":
 		// same for the first committee election
 		h := k.Height + 1
